@@ -10,6 +10,15 @@ CLAIMED = {
  "C02": ("6/C02", "deterministic simulation: seeded schedules of one updater per gauge vs concurrent report passes, latest-value oracle over the recorded history",
          "Seeded search over interleavings of Update (two atomic stores) with report passes (swap + load) from the ticker, Close and report-on-reacquire; unique bit patterns incl. NaN payloads, infinities, -0, subnormals; every delivered value must have been passed to Update earlier, deliveries never outnumber updates, after updates stop and a complete pass ran the reporter's most recent value is the last update, an idle pass re-delivers nothing. Exploration.",
          "As C01; pass boundaries are taken from the reporter seam (Flush), not from internals."),
+ "C07": ("6/C07", "deterministic simulation: seeded schedules of obtain/record/Close/re-request cycles vs report passes, per-scope-object obligation ledger",
+         "Seeded search over interleavings of {obtain subscope, record, Close, obtain again, record} cycles on 1-3 identities sharing registry shards with the periodic pass, report-on-reacquire and (sometimes) the root's Close; obligations are kept per returned scope object (recorded before its Close was invoked = required, overlapping or later = optional, through a scope derived from an already closed scope = forbidden); delivered sums must match, a re-requested scope must be functional, no panic or deadlock. Exploration.",
+         "As C01."),
+ "C08": ("6/C08", "deterministic simulation: Close injected at seeded points (before/between/inside a periodic pass, inside a slow reporter call, 1-3 concurrent callers), ordered-log barrier oracle",
+         "Seeded search over the point at which 1-3 tasks call the root's Close relative to the ticker and to slow reporter calls, with recorders that keep using old handles and request new scopes afterwards, reporters with and without io.Closer and with a failing Close; the ordered reporter log must show everything recorded before the first Close call delivered, then a Flush, then exactly one reporter Close, all before any Close call returns, nothing running or starting afterwards, the root's goroutine gone, later Close calls nil. Exploration.",
+         "As C01; 'no reporter call ever again' excludes allocations and the synchronous forwarding of Timer.Record on old handles (C10)."),
+ "C09": ("6/C09", "deterministic simulation: 2-4 tasks released together perform overlapping first uses while others record and a pass runs; identity + allocate-once + conservation oracle",
+         "Seeded search over interleavings of concurrent first-use registrations of the same counters, gauges, timers, histograms and child scopes (1-64 registry shards) with recording on registered metrics and report passes; all callers must receive the same object, a cached reporter sees at most one Allocate per (name, tags, kind) and one bucket allocation per bucket, everything recorded through any handle is delivered, no panic/deadlock. Exploration.",
+         "As C01. Data races between plain memory accesses are covered by the -race slice of the check only (happens-before based, schedule dependent)."),
 }
 
 NOT_APPLICABLE = {
